@@ -851,6 +851,13 @@ impl W {
             }
         }
         let mut out = Vec::new();
+        if sched::parked() > 0 {
+            // A preemption lasts as long as other tasks and the node need for their next steps, not as long as a
+            // timeout: the clock does not move while a task is suspended (the timing clauses would otherwise
+            // measure the scheduler, not the plugin).
+            free.retain(|e| !matches!(e.0, Ev::Advance(_)));
+            alts.retain(|e| !matches!(e.0, Ev::Advance(_)));
+        }
         if sched::parked() > 0 && !self.hold_armed && !self.in_probe {
             out.push((Ev::Resume, Choice { label: "Resume".to_string(), cost: 0 }));
         }
